@@ -1,6 +1,7 @@
 """C04 check configuration (see lib/props.py for the field meanings)."""
 
 PROP = {
+    "level_text_more": "In the HTTP part identifiers are compared by what they denote when the program reads them (address, network, hardware address, ClientID), hardware addresses of 8 and 20 bytes are in the vocabulary, and a client is sent back with its identifiers as listed (what the web interface does when another setting changes); in the 'effective' part source addresses also arrive in IPv4-mapped form.",
     "parts": [
         {"name": "storage", "pkg": "internal/client", "files": ["client/c04_model_test.go",
         "client/c04_machine_test.go",
